@@ -1312,6 +1312,78 @@ theorem v_in_return_range_fresh {m : Mdl} {rmin rmax : Rat} (hb : Bnd m rmin rma
   rw [h0] at this
   simpa using this
 
+/-- a public call never raises the step budget above `max (old budget) (horizon + overrun)` -/
+theorem call_budget_le {m : Mdl} {rmin rmax : Rat} {t t' : Tree} {op : Op} {log rest : List Step} (h : Inv m rmin rmax t)
+    (hc : call m t op log = some (t', rest)) : t'.budget ≤ max t.budget (op.H + m.overrun) := by
+  unfold call at hc
+  split at hc
+  · simp at hc
+  · rename_i t0 H iters hp
+    obtain ⟨i0, hbud, hH, _⟩ := prepare_inv h hp
+    have h0 : t0.budget ≤ max t.budget (op.H + m.overrun) := by
+      cases op with
+      | fresh parts nA H' iters' =>
+        simp [prepare] at hp
+        obtain ⟨rfl, _, _⟩ := hp
+        simp [Tree.fresh, Op.H]
+      | adv a k parts nA H' iters' =>
+        simp only [prepare] at hp
+        split at hp
+        · split at hp
+          · split at hp
+            · simp at hp
+            · rename_i t1 hal
+              simp at hp
+              obtain ⟨rfl, _, _⟩ := hp
+              obtain ⟨_, _, _, _, a5, _⟩ := alloc_spec hal
+              show (if t1.budget < H' + m.overrun then H' + m.overrun else t1.budget) ≤ _
+              have : t1.budget = t.budget - 1 := a5
+              simp only [Op.H]
+              split <;> omega
+          · simp at hp
+            obtain ⟨rfl, _, _⟩ := hp
+            simp [Tree.fresh, Op.H]
+        · simp at hp
+    split at hc
+    · simp at hc
+      obtain ⟨rfl, _⟩ := hc
+      exact h0
+    · obtain ⟨useds, _, hS⟩ := runSims_sound m _ _ _ _ _ _ hc
+      obtain ⟨_, i2, _, _⟩ := hS.inv (by omega) hbud i0
+      rw [i2]; exact h0
+
+/-- trees reachable by histories of public calls whose horizons are all at most `h` -/
+inductive ReachH (m : Mdl) (h : Nat) : Tree → Prop
+  | init : ReachH m h Tree.init
+  | call (t t' : Tree) (op : Op) (log rest : List Step) : ReachH m h t → op.H ≤ h → call m t op log = some (t', rest) → ReachH m h t'
+
+theorem ReachH.reach {m : Mdl} {h : Nat} {t : Tree} (hr : ReachH m h t) : Reach m t ∧ t.budget ≤ h + m.overrun := by
+  induction hr with
+  | init => exact ⟨Reach.init, by simp [Tree.init, Tree.fresh]⟩
+  | call t t' op log rest _ hH hc ih =>
+    refine ⟨Reach.call t t' op log rest ih.1 hc, ?_⟩
+    have := call_budget_le (ih.1.inv 0 0) hc
+    have h2 := ih.2
+    omega
+
+/-- **v_in_return_range for arbitrary histories, in plain terms.**  If no call of the history asked for a horizon above
+    `h` (fresh calls, promotions with any keys, restarts, any iteration counts), every tried action at depth `|q|` has its
+    estimate within the returns achievable in `h + overrun - |q|` steps — `h - |q|` once the rollout length is repaired. -/
+theorem v_in_return_range_history {m : Mdl} {rmin rmax : Rat} (hb : Bnd m rmin rmax) {h : Nat} {t : Tree} (hr : ReachH m h t)
+    (q : Path) (a : Nat) (hN : 0 < t.aN q a) :
+    loR m.gamma rmin (h + m.overrun - q.length) ≤ t.aV q a ∧ t.aV q a ≤ hiR m.gamma rmax (h + m.overrun - q.length) := by
+  obtain ⟨hreach, hbud⟩ := hr.reach
+  have hI := hreach.inv rmin rmax
+  have hne : t.rets q a ≠ [] := by
+    intro he; have := hI.stat.len q a; rw [he] at this; simp at this; omega
+  rw [hI.stat.avg q a]
+  apply mean_bounds hne
+  intro x hx
+  obtain ⟨k, k1, k2, k3, k4⟩ := hI.rng hb q a x hx
+  have e1 := hiR_mono m.gamma rmax hb.g0 k (h + m.overrun - q.length) k1 (by omega)
+  have e2 := loR_anti m.gamma rmin hb.g0 k (h + m.overrun - q.length) k1 (by omega)
+  constructor <;> linarith
+
 /-- **advance_keeps_subtree.**  The tree the simulations of `sampleAction(a, key, horizon)` start from is either
     exactly the `(a, key)` subtree of the old tree (every count, value, particle list and descendant, re-rooted; the
     root's action nodes are allocated if it had none) or a clean fresh root — the latter exactly when that child
